@@ -65,4 +65,22 @@ def agreeLoop (ci cs : Cfg) : Nat → Seq → Bool
 /-- The class for the two extracted configurations (the empty list — `ESC[m` — included). -/
 def agreeClass (q : Seq) : Bool := q.isEmpty || agreeLoop parseCfg ssCfg 0 q
 
+/-! ### the exact test (round 4): for a fixed list every consumer is a field-wise keep / constant, bit-wise keep / set / clear
+transformer of the style (`Lemmas/SgrShape.lean`), so agreement from EVERY style is decided by two probes -/
+
+def probe0 : Style := ⟨0, 0, 0, 0, 0⟩
+def probe1 : Style := ⟨1, 1, 1, 7, 255⟩
+
+/-- Both panic, or both return the same style. -/
+def sameRes (a b : Except Panic Style) : Bool :=
+  match a, b with
+  | .ok x, .ok y => x == y
+  | .error _, .error _ => true
+  | _, _ => false
+
+/-- `parseSGR` and `NewStyledString` (default = zero style) give the same result on `q` from both probes
+    (⇔ from every style with an 8-bit attribute mask: `Props.C18Agree.consumers_agree_iff`). -/
+def agreeExact (q : Seq) : Bool :=
+  sameRes (parseSGR probe0 q) (ssSeq {} probe0 q) && sameRes (parseSGR probe1 q) (ssSeq {} probe1 q)
+
 end VaxisModel.Model.Sgr
